@@ -96,7 +96,7 @@ def check(run):
                 foreign = nxt.body if isinstance(nxt.test.ops[0], ast.NotEq) else nxt.orelse
                 stop = (not foreign) or any(isinstance(s, (ast.Break, ast.Return)) for s in foreign) or isinstance(nxt.test.ops[0], ast.Eq)
                 stops.append((f, nxt, stop))
-    run.floor("C24.R3", 13)
+    run.floor("C24.R3", 10)
     ordinal_obs(run, "C24.R5")
     # R4 disjunction
     tokey = ix.func(DU, "SuberBase._tokey")
